@@ -191,6 +191,8 @@ pub fn run(seed: u64, count: usize, outdir: &str) -> std::io::Result<i32> {
     let mut hist: BTreeMap<String, usize> = BTreeMap::new();
     let mut distinct = BTreeSet::new();
     let mut samples_out: Vec<String> = vec![];
+    let mut ll_vm = Shape::<VmFunction>::new_point_eval();
+    let mut ll_jit = Shape::<JitFunction>::new_point_eval();
     for ci in 0..count {
         let mut r = rng.fork();
         let cfg = DagCfg { max_ops: 40, max_outputs: 1, max_free_vars: *r.pick(&[0usize, 1, 2, 3, 5, 8, 12, 24]), p_const_operand: 0.2,
@@ -213,16 +215,17 @@ pub fn run(seed: u64, count: usize, outdir: &str) -> std::io::Result<i32> {
         // supplied table: every free variable in a random order, sometimes with one missing, sometimes with extras
         let mut order: Vec<usize> = (0..nfree).collect();
         r.shuffle(&mut order);
-        let mode = r.below(5);
-        let drop = if mode == 0 && nfree > 0 { Some(order[r.below(nfree)]) } else { None };
+        // mode 5: one variable missing AND more unrelated extras than the shape has inputs (the table is large enough, yet incomplete)
+        let mode = r.below(6);
+        let drop = if (mode == 0 || mode == 5) && nfree > 0 { Some(order[r.below(nfree)]) } else { None };
         let supplied: Vec<(usize, f32)> = order.iter().filter(|k| Some(**k) != drop).map(|k| (*k, gen_tame(&mut r))).collect();
-        let extra = if mode == 1 { r.range(1, 4) } else { 0 };
+        let extra = if mode == 1 { r.range(1, 4) } else if mode == 5 { r.range(28, 40) } else { 0 };
         let p = [gen_tame(&mut r), gen_tame(&mut r), gen_tame(&mut r)];
         let mat = gen_mat(&mut r);
         let c = Case { dag: &dag, root, mat, p, supplied, extra };
         *hist.entry(format!("vars-created={}", match nfree { 0 => "0", 1..=3 => "1-3", 4..=8 => "4-8", _ => "9-24" })).or_default() += 1;
         *hist.entry(match (&c.mat, mode) { (None, _) => "no-transform", (Some(m), _) if m[(3, 0)] != 0.0 || m[(3, 1)] != 0.0 || m[(3, 2)] != 0.0 || m[(3, 3)] != 1.0 => "projective", _ => "affine" }.into()).or_default() += 1;
-        *hist.entry(match mode { 0 if drop.is_some() => "one-missing", 1 => "extras-supplied", _ => "exact-table" }.into()).or_default() += 1;
+        *hist.entry(match mode { 0 if drop.is_some() => "one-missing", 5 if drop.is_some() => "one-missing-many-extras", 1 | 5 => "extras-supplied", _ => "exact-table" }.into()).or_default() += 1;
 
         let mut bad: Vec<String> = vec![];
         // ---- implementation (VM point) + the tape's variable map
@@ -234,11 +237,39 @@ pub fn run(seed: u64, count: usize, outdir: &str) -> std::io::Result<i32> {
         by_index.sort();
         let t = match &c.mat { Some(m) => <f32 as Transformable>::transform(p[0], p[1], p[2], m), None => (p[0], p[1], p[2]) };
         let res = catch_unwind(AssertUnwindSafe(|| eval_point::<VmFunction>(&c)));
+        let mut bind_section = String::from("?");
+        // ---- the same evaluation with evaluators that live for the whole run (every earlier shape has been dropped by now)
+        {
+            let sv = shape_vars(&c);
+            macro_rules! reused { ($F:ty, $e:expr, $name:expr) => {{
+                let sh = Shape::<$F>::new(&dag.ctx, root).unwrap();
+                let tp = sh.point_tape(Default::default());
+                let fresh = { let mut e = Shape::<$F>::new_point_eval();
+                    match &c.mat { Some(m) => e.eval_with_transform_and_vars(&tp, p[0], p[1], p[2], m, &sv).map(|o| canon_bits(o.0)).map_err(|e| e.to_string()),
+                                   None => e.eval_with_vars(&tp, p[0], p[1], p[2], &sv).map(|o| canon_bits(o.0)).map_err(|e| e.to_string()) } };
+                let again = match &c.mat { Some(m) => $e.eval_with_transform_and_vars(&tp, p[0], p[1], p[2], m, &sv).map(|o| canon_bits(o.0)).map_err(|e| e.to_string()),
+                                           None => $e.eval_with_vars(&tp, p[0], p[1], p[2], &sv).map(|o| canon_bits(o.0)).map_err(|e| e.to_string()) };
+                if fresh != again { bad.push(format!("kind=reused-evaluator-differs backend={} fresh {:?} long-lived {:?}", $name, fresh, again)); }
+            }} }
+            if catch_unwind(AssertUnwindSafe(|| { reused!(VmFunction, ll_vm, "vm"); reused!(JitFunction, ll_jit, "jit"); })).is_err() { bad.push("kind=panic with a long-lived evaluator".into()); }
+            // ---- binding: accepted exactly when every variable of the tape is in the table
+            // (the shape whose map iteration order went into the case line: the model runs ShapeVars::check over that order)
+            let sh = &shape;
+            let needs: BTreeSet<u64> = sh.inner().vars().iter().map(|(v, _)| var_id(v, &dag.vs)).filter(|v| *v >= 3).collect();
+            let have: BTreeSet<u64> = c.supplied.iter().map(|(k, _)| 3 + *k as u64).collect();
+            bind_section = match sh.bind(&sv) { Ok(_) => "ok".to_string(), Err(m) => var_id(Var::V(m.var), &dag.vs).to_string() };
+            match sh.bind(&sv) {
+                Ok(_) => if !needs.is_subset(&have) { bad.push(format!("kind=bind-accepts-incomplete-table needs {:?} has {:?} (+{} unrelated)", needs, have, c.extra)); },
+                Err(m) => { let w = var_id(Var::V(m.var), &dag.vs); if needs.is_subset(&have) { bad.push(format!("kind=bind-rejects-complete-table names {w}")); }
+                            else if !needs.contains(&w) || have.contains(&w) { bad.push(format!("kind=bind-names-wrong-variable {w}")); } }
+            }
+        }
         let mut il = format!("vars {}", by_index.iter().map(|(_, v)| v.to_string()).collect::<Vec<_>>().join(" "));
         write!(il, " | xyz {} {} {}", canon_bits(t.0), canon_bits(t.1), canon_bits(t.2)).unwrap();
         match &res { Ok(Ok(v)) => write!(il, " | out {}", canon_bits(*v)).unwrap(),
                      Ok(Err(_)) => write!(il, " | out missing").unwrap(),
                      Err(_) => write!(il, " | out panic").unwrap() }
+        write!(il, " | bind {bind_section}").unwrap();
         impls.push_str(&il); impls.push('\n');
         // ---- the case for the model
         let mut line = format!("c14 {} {} 255 {}", fmt_arena(&dag.ctx, &dag.vs), root.verif_index(), it.len());
